@@ -218,4 +218,263 @@ Section Proofs.
   Proof. unfold sim_steady. repeat (reflexivity || dm). Qed.
   Lemma sim_tc_state S st : fst (sim_time_course O S st) = st.
   Proof. unfold sim_time_course. repeat (reflexivity || dm). Qed.
+
+  Ltac dmh H := match type of H with
+    | context [match ?x with _ => _ end] => destruct x eqn:?
+    | context [if ?x then _ else _] => destruct x eqn:?
+    end.
+
+  Lemma memN_minus_self W k : memN k (minus W W) = false.
+  Proof. rewrite memN_minus. destruct (memN k W); reflexivity. Qed.
+
+  Lemma proto_steps_touches S : forall steps full st t y acc st' out,
+    proto_steps O S steps full st t y acc = (st', out) ->
+    agree (s_proto_names S) (ms_pars st') (ms_pars st) /\ ms_vars st' = ms_vars st.
+  Proof.
+    induction steps as [|[t_end vals] r IH]; intros full st t y acc st' out H; simpl in H.
+    - inversion H; subst. split; [apply agree_refl | reflexivity].
+    - destruct (seq_update (s_proto_names S) (fun n => lookup n (combine (s_proto_names S) vals)) (ms_pars st)) as [p e] eqn:Hs.
+      apply seq_update_touches in Hs.
+      repeat dmh H;
+        first [ inversion H; subst; simpl; split; [exact Hs | reflexivity]
+              | apply IH in H; destruct H as [H1 H2]; simpl in *; split; [eapply agree_trans; [exact H1 | exact Hs] | exact H2] ].
+  Qed.
+
+  Lemma proto_steps_agree S steps full st st0 t y acc st' out :
+    agree (s_proto_names S) (ms_pars st) (ms_pars st0) -> ms_vars st = ms_vars st0 ->
+    proto_steps O S steps full st t y acc = (st', out) ->
+    exists st0', proto_steps O S steps full st0 t y acc = (st0', out) /\
+                 agree (s_proto_names S) (ms_pars st') (ms_pars st0') /\ ms_vars st' = ms_vars st0'.
+  Proof.
+    intros Hp Hv H. destruct steps as [|[t_end vals] r]; simpl in *.
+    - inversion H; subst. exists st0. repeat split; assumption.
+    - destruct (seq_update (s_proto_names S) (fun n => lookup n (combine (s_proto_names S) vals)) (ms_pars st)) as [p e] eqn:Hs.
+      destruct (seq_update_agree _ _ _ _ _ _ _ Hp Hs) as [p0 [Hs0 Hag]]. rewrite Hs0. rewrite <- Hv.
+      destruct e as [e|].
+      + inversion H; subst. eexists. split; [reflexivity|]. simpl. split; [exact Hag | reflexivity].
+      + assert (p = p0) as <- by (eapply agree_none_eq; [|exact Hag]; apply memN_minus_self).
+        eexists. split; [exact H|]. split; [apply agree_refl | reflexivity].
+  Qed.
+
+  Definition proto_w (k : fit_kind) (S : settings) : list name :=
+    match k with KProtocol => s_proto_names S | _ => [] end.
+
+  Lemma mstate_eq (a b : mstate) : ms_pars a = ms_pars b -> ms_vars a = ms_vars b -> a = b.
+  Proof. destruct a, b; simpl; intros; subst; reflexivity. Qed.
+
+  Lemma simulate_agree k S st st0 st' out :
+    agree (proto_w k S) (ms_pars st) (ms_pars st0) -> ms_vars st = ms_vars st0 ->
+    simulate O k S st = (st', out) ->
+    exists st0', simulate O k S st0 = (st0', out) /\
+                 agree (proto_w k S) (ms_pars st') (ms_pars st0') /\ ms_vars st' = ms_vars st0'.
+  Proof.
+    intros Hp Hv H. destruct k; simpl in *.
+    - assert (st = st0) as <- by (apply mstate_eq; [eapply agree_none_eq; [|exact Hp]; reflexivity | exact Hv]).
+      exists st'. split; [exact H|]. split; [apply agree_refl | reflexivity].
+    - assert (st = st0) as <- by (apply mstate_eq; [eapply agree_none_eq; [|exact Hp]; reflexivity | exact Hv]).
+      exists st'. split; [exact H|]. split; [apply agree_refl | reflexivity].
+    - unfold sim_protocol in *. rewrite <- Hv.
+      repeat dmh H;
+        first [ inversion H; subst; eexists; split; [reflexivity|]; split; assumption
+              | eapply proto_steps_agree; eassumption ].
+  Qed.
+
+  Lemma simulate_touches k S st st' out :
+    simulate O k S st = (st', out) -> agree (proto_w k S) (ms_pars st') (ms_pars st) /\ ms_vars st' = ms_vars st.
+  Proof.
+    intros H. destruct k; simpl in *.
+    - pose proof (sim_steady_state S st) as E. rewrite H in E. simpl in E. subst. split; [apply agree_refl | reflexivity].
+    - pose proof (sim_tc_state S st) as E. rewrite H in E. simpl in E. subst. split; [apply agree_refl | reflexivity].
+    - unfold sim_protocol in H.
+      repeat dmh H;
+        first [ inversion H; subst; split; [apply agree_refl | reflexivity]
+              | eapply proto_steps_touches; eassumption ].
+  Qed.
+
+  (** *** one residual call *)
+  Section Step.
+    Variable k : fit_kind.
+    Variable S : settings.
+    Let order := rf_order (res_facts ff k).
+    Definition Wp : list name := wp_phases S order ++ proto_w k S.
+    Definition Wv : list name := wv_phases S order.
+    Definition step := residual_step O ff k S.
+
+    Lemma weaken_proto kk : memN kk (proto_w k S) = false -> memN kk (minus Wp (wp_phases S order)) = false.
+    Proof.
+      intros H. rewrite memN_minus. unfold Wp. rewrite memN_app, H, orb_false_r.
+      destruct (memN kk (wp_phases S order)); reflexivity.
+    Qed.
+    Lemma weaken_Wp_proto kk : memN kk Wp = false -> memN kk (proto_w k S) = false.
+    Proof. unfold Wp. rewrite memN_app. intros H. apply orb_false_iff in H. tauto. Qed.
+    Lemma weaken_Wp_phases kk : memN kk Wp = false -> memN kk (wp_phases S order) = false.
+    Proof. unfold Wp. rewrite memN_app. intros H. apply orb_false_iff in H. tauto. Qed.
+
+    (** two models that agree outside the written names give the SAME residual, and still agree *)
+    Lemma step_agree st st0 u st' l :
+      agree_st Wp Wv st st0 -> step st u = (st', l) ->
+      exists st0', step st0 u = (st0', l) /\ agree_st Wp Wv st' st0'.
+    Proof.
+      intros Hag H. unfold step, residual_step in *. fold order in H |- *.
+      destruct (apply_phases S u order st) as [st1 e] eqn:Hph.
+      destruct (apply_phases_agree S u order _ _ _ _ _ _ Hag Hph) as [st01 [H0 Hag1]]. rewrite H0.
+      destruct e as [e|].
+      - inversion H; subst. exists st01. split; [reflexivity | exact Hag1].
+      - destruct (simulate O k S st1) as [st2 out] eqn:Hsim. inversion H; subst.
+        destruct Hag1 as [Hp1 Hv1].
+        assert (Hv1' : ms_vars st1 = ms_vars st01) by (eapply agree_none_eq; [|exact Hv1]; apply memN_minus_self).
+        assert (Hp1' : agree (proto_w k S) (ms_pars st1) (ms_pars st01))
+          by (eapply agree_weaken; [|exact Hp1]; apply weaken_proto).
+        destruct (simulate_agree _ _ _ _ _ _ Hp1' Hv1' Hsim) as [st02 [Hs0 [Hp2 Hv2]]]. rewrite Hs0.
+        exists st02. split; [reflexivity|]. split.
+        + eapply agree_weaken; [|exact Hp2]. apply weaken_Wp_proto.
+        + rewrite Hv2. apply agree_refl.
+    Qed.
+
+    (** a residual call writes only the written names *)
+    Lemma step_touches st u st' l : step st u = (st', l) -> agree_st Wp Wv st' st.
+    Proof.
+      intros H. unfold step, residual_step in *. fold order in H.
+      destruct (apply_phases S u order st) as [st1 e] eqn:Hph. apply apply_phases_touches in Hph.
+      assert (Hph' : agree_st Wp Wv st1 st)
+        by (eapply agree_st_weaken; [| |exact Hph]; [apply weaken_Wp_phases | auto]).
+      destruct e as [e|]; [inversion H; subst; exact Hph'|].
+      destruct (simulate O k S st1) as [st2 out] eqn:Hsim. inversion H; subst.
+      apply simulate_touches in Hsim. destruct Hsim as [Hp Hv]. eapply agree_st_trans; [|exact Hph'].
+      split; [eapply agree_weaken; [|exact Hp]; apply weaken_Wp_proto | rewrite Hv; apply agree_refl].
+    Qed.
+
+    Definition after_history (st0 : mstate) (us : list (list (name * T))) : mstate :=
+      fold_left (fun st u => fst (step st u)) us st0.
+
+    Lemma after_history_agree st0 us : agree_st Wp Wv (after_history st0 us) st0.
+    Proof.
+      unfold after_history. rewrite <- fold_left_rev_right. induction (rev us) as [|u r IH]; simpl; [apply agree_st_refl|].
+      destruct (step (fold_right (fun y x => fst (step x y)) st0 r) u) as [st' l] eqn:Hs. simpl.
+      eapply agree_st_trans; [eapply step_touches; exact Hs | exact IH].
+    Qed.
+
+    (** T1: whatever candidates were evaluated before on the shared settings object, the residual
+        at [u] is the residual a pristine model gives at [u] *)
+    Lemma residual_history_independent st0 us u :
+      snd (step (after_history st0 us) u) = snd (step st0 u).
+    Proof.
+      destruct (step (after_history st0 us) u) as [st' l] eqn:Hs.
+      destruct (step_agree _ _ _ _ _ (after_history_agree st0 us) Hs) as [st0' [H0 _]]. rewrite H0. reflexivity.
+    Qed.
+
+    (** *** minimisers *)
+    Notation strat := (strat (T:=T)).
+    Fixpoint honest (seen : list (list (name * T) * rloss (T:=T))) (s : strat) : Prop :=
+      match s with
+      | Done None => True
+      | Raise _ => True
+      | Done (Some (x, v)) => In (x, RVal v) seen
+      | Ask u kont => forall l, honest ((u, l) :: seen) (kont l)
+      end.
+
+    Lemma run_honest st0 : forall (s : strat) seen st st' x v,
+      agree_st Wp Wv st st0 ->
+      (forall u l, In (u, l) seen -> snd (step st0 u) = l) ->
+      honest seen s ->
+      run_strat step s st = (st', RunDone (Some (x, v))) ->
+      snd (step st0 x) = RVal v.
+    Proof.
+      induction s as [u kont IH|r|e]; intros seen st st' x v Hag Hseen Hh Hr; simpl in *.
+      - destruct (step st u) as [st1 l] eqn:Hs.
+        destruct (step_agree _ _ _ _ _ Hag Hs) as [st01 [H0 _]].
+        assert (Hag1 : agree_st Wp Wv st1 st0) by (eapply agree_st_trans; [eapply step_touches; exact Hs | exact Hag]).
+        assert (Hseen' : forall u' l', In (u', l') ((u, l) :: seen) -> snd (step st0 u') = l').
+        { intros u' l' [Hin|Hin]; [inversion Hin; subst; rewrite H0; reflexivity | apply Hseen; exact Hin]. }
+        destruct l; try discriminate; eapply IH; eauto.
+      - inversion Hr; subst. simpl in Hh. apply Hseen. exact Hh.
+      - discriminate.
+    Qed.
+
+    Fixpoint leaves_le (le : T -> T -> Prop) (b : T) (s : strat) : Prop :=
+      match s with
+      | Done (Some (_, v)) => le v b
+      | Done None => True
+      | Raise _ => True
+      | Ask u kont => forall l, leaves_le le b (kont l)
+      end.
+    Lemma run_leaves_le le b : forall (s : strat) st st' x v,
+      leaves_le le b s -> run_strat step s st = (st', RunDone (Some (x, v))) -> le v b.
+    Proof.
+      induction s as [u kont IH|r|e]; intros st st' x v Hl Hr; simpl in *.
+      - destruct (step st u) as [st1 l]. destruct l; try discriminate; eapply IH; eauto.
+      - inversion Hr; subst. exact Hl.
+      - discriminate.
+    Qed.
+  End Step.
+
+  (** *** the wrappers *)
+  Lemma fit_reported_loss k S copy caller p0 (mini : list (name * T) -> strat (T:=T)) after m x v :
+    honest [] (mini p0) ->
+    fit O ff k S copy caller p0 mini = (after, FitOk m x v) ->
+    snd (residual_step O ff k (route S caller p0) caller x) = RVal v.
+  Proof.
+    intros Hh Hf. unfold fit in Hf.
+    destruct (run_strat (residual_step O ff k (route S caller p0)) (mini p0) caller) as [st' r] eqn:Hr.
+    destruct r as [[[x' v']|]|e]; inversion Hf; subst.
+    eapply (run_honest k (route S caller p0) caller (mini p0) [] caller); eauto.
+    - apply agree_st_refl.
+    - intros u l [].
+  Qed.
+
+  Lemma fit_not_worse_than_start (le : T -> T -> Prop) k S copy caller p0 kont after m x v :
+    (forall b, leaves_le le b (kont (RVal b))) ->
+    fit O ff k S copy caller p0 (fun p => Ask p kont) = (after, FitOk m x v) ->
+    snd (residual_step O ff k (route S caller p0) caller p0) = RInf
+    \/ exists b, snd (residual_step O ff k (route S caller p0) caller p0) = RVal b /\ le v b.
+  Proof.
+    intros Hl Hf. unfold fit in Hf.
+    destruct (run_strat (residual_step O ff k (route S caller p0)) (Ask p0 kont) caller) as [st' r] eqn:Hr.
+    destruct r as [[[x' v']|]|e]; inversion Hf; subst. simpl in Hr.
+    destruct (residual_step O ff k (route S caller p0) caller p0) as [st1 l] eqn:Hs. simpl.
+    destruct l as [b| |e]; [right|left; reflexivity|discriminate].
+    exists b. split; [reflexivity|]. eapply run_leaves_le; [apply Hl | exact Hr].
+  Qed.
+
+  Lemma fit_input_untouched k S copy caller p0 mini :
+    wf_copy_guard (wr_facts ff k) = true -> wf_copy_default (wr_facts ff k) = true ->
+    copy = None \/ copy = Some true ->
+    fst (fit O ff k S copy caller p0 mini) = caller.
+  Proof.
+    intros Hg Hd Hc. unfold fit. rewrite Hg.
+    destruct (run_strat (residual_step O ff k (route S caller p0)) (mini p0) caller) as [st' r].
+    destruct Hc as [->| ->]; simpl; [rewrite Hd|]; reflexivity.
+  Qed.
+
+  (** the residual is the loss between the data and the prediction at the candidate values *)
+  Lemma residual_is_loss_of_prediction k S st u st1 st2 rows pred :
+    apply_phases S u (rf_order (res_facts ff k)) st = (st1, None) ->
+    simulate O k S st1 = (st2, SimRows rows) ->
+    prediction (rf_select (res_facts ff k)) k S rows = inl (Some pred) ->
+    ff_args_unscaled ff = DataFirst -> ff_args_scaled ff = DataFirst ->
+    residual_step O ff k S st u =
+      (st2, RVal (if s_scale S
+                  then s_loss S (concat (scale_frame O (s_data S) (s_data S))) (concat (scale_frame O (s_data S) pred))
+                  else s_loss S (concat (s_data S)) (concat pred))).
+  Proof.
+    intros Hph Hsim Hpred Hu Hs. unfold residual_step. rewrite Hph, Hsim. unfold score. rewrite Hpred.
+    unfold settings_loss. rewrite Hu, Hs. destruct (s_scale S); reflexivity.
+  Qed.
+
+  (** LocalScipyMinimizer's packing keeps an honest positional optimiser honest *)
+  Fixpoint vhonest (seen : list (list T * rloss (T:=T))) (s : vstrat (T:=T)) : Prop :=
+    match s with
+    | VDone ok x f => ok = true -> In (x, RVal f) seen
+    | VAsk x kont => forall l, vhonest ((x, l) :: seen) (kont l)
+    end.
+  Lemma lift_honest names : forall (s : vstrat (T:=T)) seen,
+    vhonest seen s ->
+    honest (map (fun e => (combine names (fst e), snd e)) seen) (lift_vstrat names s).
+  Proof.
+    induction s as [x kont IH|ok x f]; intros seen Hv; simpl in *.
+    - destruct (Nat.eqb (length x) (length names)); simpl; [|exact I].
+      intros l. apply (IH l ((x, l) :: seen)). apply Hv.
+    - destruct ok; simpl; [|exact I]. destruct (Nat.eqb (length x) (length names)); simpl; [|exact I].
+      apply (in_map (fun e => (combine names (fst e), snd e)) seen (x, RVal f)). apply Hv. reflexivity.
+  Qed.
 End Proofs.
